@@ -38,6 +38,9 @@ pub enum GAttr {
     LocalNs,
     /// `k:comment`
     KComment(String),
+    /// the n-th of many further attributes (`pad<n>="x"`): real replies carry `junos:` bookkeeping
+    /// attributes, and nothing limits their number
+    Pad(usize),
     Other(u8),
     Raw(String),
 }
@@ -87,6 +90,7 @@ impl GAttr {
             GAttr::Rebind => "R".into(),
             GAttr::LocalNs => "L".into(),
             GAttr::KComment(v) => format!("K{}", hexs(v)),
+            GAttr::Pad(n) => format!("D{n}"),
             GAttr::Other(k) => format!("O{k}"),
             GAttr::Raw(v) => format!("Z{}", hexs(v)),
         }
@@ -102,6 +106,7 @@ impl GAttr {
             "R" if t.is_empty() => GAttr::Rebind,
             "L" if t.is_empty() => GAttr::LocalNs,
             "K" => GAttr::KComment(unhexs(t)?),
+            "D" => GAttr::Pad(t.parse().ok()?),
             "O" => GAttr::Other(t.parse().ok()?),
             "Z" => GAttr::Raw(unhexs(t)?),
             _ => return None,
@@ -111,7 +116,7 @@ impl GAttr {
     /// prefix `jcmd` to another namespace, so its `jcmd:` attributes are not jcmd attributes
     fn spec_token(&self, rebound: bool, local_k: bool) -> Option<String> {
         match self {
-            GAttr::Ns | GAttr::Other(_) | GAttr::Rebind | GAttr::LocalNs => Some("O".into()),
+            GAttr::Ns | GAttr::Other(_) | GAttr::Rebind | GAttr::LocalNs | GAttr::Pad(_) => Some("O".into()),
             GAttr::KComment(v) if local_k => Some(format!("C{}", hexs(v))),
             GAttr::KComment(_) => Some("O".into()),
             GAttr::Active(_) | GAttr::Comment(_) if rebound => Some("O".into()),
@@ -347,6 +352,7 @@ impl Case {
                 GAttr::AltComment(v) => out.push_str(&format!("j:comment={}", self.esc_attr(v))),
                 GAttr::LocalNs => out.push_str(&format!("xmlns:k={}", self.quote(JCMD))),
                 GAttr::KComment(v) => out.push_str(&format!("k:comment={}", self.esc_attr(v))),
+                GAttr::Pad(n) => out.push_str(&format!("pad{n}={}", self.esc_attr("x"))),
                 GAttr::Rebind => out.push_str(&format!(
                     "xmlns:jcmd={}",
                     self.esc_attr("urn:example:not-junos")
@@ -829,6 +835,22 @@ fn exhaustive(opts: &Opts) -> Vec<Case> {
             attrs: vec![GAttr::Rebind, GAttr::Comment(PLAIN.into())],
             body: std_body("n0"),
         }]));
+        // many attributes in front of the ones that matter (30, 40, 300 of them)
+        for n in [30usize, 40, 300] {
+            for tail in [
+                vec![GAttr::Ns, GAttr::Comment(GOOD.into()), GAttr::Active("false".into())],
+                vec![GAttr::Ns, GAttr::Active("false".into()), GAttr::Comment(GOOD.into())],
+                vec![GAttr::Ns, GAttr::Comment(GOOD.into())],
+                vec![GAttr::Ns, GAttr::Comment(GOOD.into()), GAttr::Active("true".into())],
+            ] {
+                let mut attrs: Vec<GAttr> = (0..n).map(GAttr::Pad).collect();
+                attrs.extend(tail);
+                cases.push(plain_case(vec![
+                    GStmt { attrs, body: std_body("n0") },
+                    witness.clone(),
+                ]));
+            }
+        }
         // a SELECTED statement that binds its annotation prefix itself (as Junos does), followed by a
         // statement that uses the same prefix without declaring it: there the prefix has its outer
         // meaning (another namespace), the attribute is no annotation, the statement is not managed
